@@ -315,7 +315,7 @@ func nil2abs(n gen.Num) *bigRat { return absRat(n.R) }
 
 // c04RandomBook: records with arbitrary names, all number forms, notes, occasionally long names / many lines.
 func c04RandomBook(r *rand.Rand) gen.Book {
-	no := gen.NameOpts{Unicode: true, Spaces: true, Slash: true, Punct: gen.PunctAll, MaxLen: 14}
+	no := gen.NameOpts{Unicode: true, Spaces: true, Slash: true, Punct: gen.PunctAll, MaxLen: 14, Edge: gen.EdgePunct}
 	nrec := 1 + r.Intn(8)
 	maxEnts := 6
 	switch r.Intn(40) {
